@@ -29,6 +29,7 @@ type Rep struct {
 	// writes it applied while RW (ids, in order) and the persisted rebuilding flag
 	Log        []int
 	Rebuilding bool
+	Snaps      map[string][]int // user-created snapshot name -> the writes it froze
 }
 
 type World struct {
@@ -230,6 +231,12 @@ func (b *Backend) Snapshot(name string, user bool, created string) error {
 	}
 	r := b.w.rep(b.Addr)
 	b.w.mu.Lock()
+	if user {
+		if r.Snaps == nil {
+			r.Snaps = map[string][]int{}
+		}
+		r.Snaps[name] = append([]int{}, r.Log...)
+	}
 	r.headN++
 	r.Chain = append([]string{fmt.Sprintf("volume-head-%03d.img", r.headN), "volume-snap-" + name + ".img"}, r.Chain[1:]...)
 	b.w.mu.Unlock()
